@@ -6,6 +6,7 @@
 package verifharness
 
 import (
+	"reflect"
 	"bytes"
 	"context"
 	"crypto/ecdsa"
@@ -283,7 +284,8 @@ func (e *Env) TakeNotifs() []Notif {
 func (e *Env) ResetState(lrsn uint64) {
 	self := chf_context.GetSelf()
 	self.UePool.Range(func(k, _ any) bool { self.UePool.Delete(k); return true })
-	self.LocalRecordSequenceNumber = lrsn
+	// (through reflection: the check must still build when the counter's integer type changes)
+	reflect.ValueOf(self).Elem().FieldByName("LocalRecordSequenceNumber").SetUint(lrsn)
 	e.Mongo.Clear(ChargingNS)
 	e.TakeNotifs()
 }
